@@ -108,6 +108,12 @@ func (t *ProcessorTask) Do(ctx context.Context, b *Batch) error {
 	}
 	t.metrics.Observe(len(recsOut), start)
 
+	if len(recsOut) > len(recsIn) {
+		// More results than records: there is no record the surplus results
+		// could belong to (marking them would index past the end of the batch).
+		return cerrors.Errorf("processor returned %d records, but was given only %d", len(recsOut), len(recsIn))
+	}
+
 	if len(recsIn) > len(recsOut) {
 		// Processor skipped some records, append empty records, so that we can
 		// mark them to be retried.
